@@ -46,5 +46,11 @@ J gen_nest(const std::string&, uint64_t, const std::string&);   void exec_nest(c
 // library shares with it; a library that 'temporarily' switches it is caught when it does)
 bool comma_locale(bool on);
 
+// a lazily committed, zero-filled region of 8 GiB + 64 KiB for calls with buffer lengths beyond 2^32 (only the pages that are
+// touched become resident). Returns nullptr if the mapping is not available.
+uint8_t* huge_region();
+static const uint64_t HUGE_REGION_BYTES = ((uint64_t)8 << 30) + 65536;
+extern bool g_rec_no_payload;   // recorder: do not copy string payloads (they may be gigabytes of untouched zero pages)
+
 // common knob parsing
 SaKnobs knobs_alloc(const J& plan);
